@@ -976,7 +976,7 @@ def _build_syntactic_behaviour(
     attrib = {'subcategorizationFrame': syntactic_behaviour['subcategorizationFrame']}
     if version >= (1, 1) and syntactic_behaviour.get('id'):
         attrib['id'] = syntactic_behaviour['id']
-    elif syntactic_behaviour.get('senses'):
+    if syntactic_behaviour.get('senses'):
         attrib['senses'] = ' '.join(syntactic_behaviour['senses'])
     return ET.Element('SyntacticBehaviour', attrib=attrib)
 
